@@ -45,6 +45,11 @@ where
             rt2.wait_for_baton(tid);
             rt2.log(tid, "begin".into());
             let r = std::panic::catch_unwind(std::panic::AssertUnwindSafe(f));
+            if r.is_err() {
+                let mut g = rt2.inner.lock().unwrap();
+                g.panics += 1;
+                g.log(tid, "panic".into());
+            }
             *r2.lock().unwrap() = Some(r);
             rt2.finish(tid);
         })
